@@ -23,20 +23,20 @@ Definition combine_spec (l r : data) : data :=
     (if has_ironwood v then d_irontx l + d_irontx r else 0).
 
 (** Abstract binary trees over leaf records and the record each denotes. *)
-Inductive bt := L (d : data) | N (l r : bt).
+Inductive bt := BL (d : data) | BN (l r : bt).
 Fixpoint bt_data (T : bt) : data :=
-  match T with L d => d | N l r => combine_spec (bt_data l) (bt_data r) end.
+  match T with BL d => d | BN l r => combine_spec (bt_data l) (bt_data r) end.
 Fixpoint bt_leaves (T : bt) : list data :=
-  match T with L d => [d] | N l r => bt_leaves l ++ bt_leaves r end.
+  match T with BL d => [d] | BN l r => bt_leaves l ++ bt_leaves r end.
 (** number of array slots of a subtree (post-order layout) *)
 Fixpoint bt_size (T : bt) : Z :=
-  match T with L _ => 1 | N l r => bt_size l + bt_size r + 1 end.
+  match T with BL _ => 1 | BN l r => bt_size l + bt_size r + 1 end.
 
 (** Perfect tree of height [h] over the first [2^h] elements of [ls]. *)
 Fixpoint perfect_of (dflt : data) (h : nat) (ls : list data) : bt :=
   match h with
-  | O => L (hd dflt ls)
-  | S h' => N (perfect_of dflt h' (firstn (2 ^ h') ls)) (perfect_of dflt h' (skipn (2 ^ h') ls))
+  | O => BL (hd dflt ls)
+  | S h' => BN (perfect_of dflt h' (firstn (2 ^ h') ls)) (perfect_of dflt h' (skipn (2 ^ h') ls))
   end.
 
 (** Set bits of [n] below bit [k], highest first. *)
